@@ -460,6 +460,15 @@ func init() {
 		Rule:        "(1) inductive step on the real BufferedFile.Seek/Read from an arbitrary window state satisfying the representation invariant, abstract file of symbolic size F in [1,2^40) whose byte at offset i is byte(i): Seek(off,SeekStart) for every off in [0,F], Seek(0,SeekCurrent), Read(p) with len(p) in 1..3 (thorough 4) inside the file; invariant, window-contains-offset, buffer content (Skolem position) and returned bytes asserted; (1b) the same step with window-relative quantities restricted to boundary classes (offset in window {0,1,2047,2048,4094,4095,4096} x bytes after the window {0,1,3,2047,2048,2049,5000}, short files {1,2,100,4095}; absolute window position symbolic; read lengths 1..6, thorough 8) on an ordinary 4096-cell buffer, which also executes implementations that use copy()/sub-slices; (2) NewBufferedFile establishes the invariant for every F in [0,2^40); files.Reader Seek+Read / ReadAt over BufferedFile return file[off:off+n] or \"\" (n <= 3), plus a backward read; (3) whole pipeline RunFiles vs Run on the same bytes for 24 programs (5 with several find/replace commands over the same file) x contents of length 0..T (quick 3, thorough 5; ASCII and all bytes) x file named once or twice x mode NOTHING or NEW; (4) one engine read of n bytes (literal of n letters / back-reference to a capture of n letters) for every n in 1..300 (thorough 1100) and n in {511..513, 1023..1025, 2047..2049, 4095..4097, 5000, 8193} (captures: n in 1..64 (thorough 130) and {127..129, 255..257, 511..513}), with 0..2 bytes in front: RunFiles vs Run",
 		Assumptions: []string{"the kernel implements pread/read as documented (stub contract)", "file content function byte(i): a wrong offset that differs by a multiple of 256 is not visible in the data (it is visible in the offset assertions)", "reads longer than 4 bytes in one call are covered through the per-iteration argument"},
 		Groups: []JobGroup{
+			{Name: "c07-run", Overlay: libOverlay("C06/c06.go"), Pkg: "libvore", Entry: "VerifC07Run", PanicOK: false,
+				Args: func(tier string, l *Loaded) [][]int64 {
+					out := seqArgs(countOf(l, "libvore", "VerifC07RunCount"), tOf(tier, 3, 5), 1, 0)
+					return append(out, seqArgs(countOf(l, "libvore", "VerifC07RunCount"), tOf(tier, 2, 3), 0, 0)...)
+				}},
+			{Name: "c07-long", Overlay: libOverlay("C06/c06.go"), Pkg: "libvore", Entry: "VerifC07Long", MaxFailures: 3, Budget: 300_000_000,
+				Args: func(tier string, l *Loaded) [][]int64 {
+					return [][]int64{{0, tOf(tier, 300, 1100)}, {1, tOf(tier, 64, 130)}}
+				}},
 			{Name: "c07-step-classes", Overlay: filesOv("C07/c07_step.go"), Pkg: "files", Entry: "VerifC07StepClasses", Lemma: true,
 				Args: func(tier string, l *Loaded) [][]int64 {
 					var out [][]int64
@@ -475,17 +484,8 @@ func init() {
 				}},
 			{Name: "c07-new", Overlay: filesOv("C07/c07_step.go"), Pkg: "files", Entry: "VerifC07New", Lemma: true, OptionalUnsupported: "lazily defined array",
 				Args: func(tier string, l *Loaded) [][]int64 { return [][]int64{{}} }},
-			{Name: "c07-reader", Overlay: filesOv("C07/c07_step.go"), Pkg: "files", Entry: "VerifC07Reader", OptionalUnsupported: "lazily defined array",
+			{Name: "c07-reader", Overlay: filesOv("C07/c07_step.go"), Pkg: "files", Entry: "VerifC07Reader", Lemma: true, OptionalUnsupported: "lazily defined array",
 				Args: func(tier string, l *Loaded) [][]int64 { return [][]int64{{0, 3}, {1, 3}} }},
-			{Name: "c07-run", Overlay: libOverlay("C06/c06.go"), Pkg: "libvore", Entry: "VerifC07Run", PanicOK: false,
-				Args: func(tier string, l *Loaded) [][]int64 {
-					out := seqArgs(countOf(l, "libvore", "VerifC07RunCount"), tOf(tier, 3, 5), 1, 0)
-					return append(out, seqArgs(countOf(l, "libvore", "VerifC07RunCount"), tOf(tier, 2, 3), 0, 0)...)
-				}},
-			{Name: "c07-long", Overlay: libOverlay("C06/c06.go"), Pkg: "libvore", Entry: "VerifC07Long", MaxFailures: 3, Budget: 300_000_000,
-				Args: func(tier string, l *Loaded) [][]int64 {
-					return [][]int64{{0, tOf(tier, 300, 1100)}, {1, tOf(tier, 64, 130)}}
-				}},
 			{Name: "c07-twin", Overlay: filesOv("C07/c07_step.go"), Pkg: "files", Entry: "VerifC07Step", Twin: true,
 				Args: func(tier string, l *Loaded) [][]int64 { return [][]int64{{0, 1, 1}} }},
 		}}
